@@ -1,5 +1,6 @@
 (* C04 - TCP request/response framing is lossless, exact and bounded.
-   Property theorems only; every proof is `exact <lemma>` from proof/C04_Framing.v, proof/C04_Dispatch.v, proof/C04_Fin.v.
+   Property theorems only; every proof is `exact <lemma>` from proof/C04_Framing.v, proof/C04_Dispatch.v, proof/C04_Fin.v,
+   proof/C04_Client.v.
 
    Vocabulary (lib/Reader.v): an io.Reader is a finite script of read events (chunks of any size,
    zero-length reads, reads that return an error, reads that return data and an error together).
@@ -9,7 +10,8 @@
    every split of the byte stream into reads and everything that may come later.
    [rs_ctr] carries what was asked of the reader: c_max = largest single Read request,
    c_alloc = bytes allocated with make() for peer-declared lengths. *)
-From Hy Require Import model.C04_Framing proof.C04_Framing model.C04_Dispatch proof.C04_Dispatch proof.C04_Fin.
+From Hy Require Import model.C04_Framing proof.C04_Framing model.C04_Dispatch proof.C04_Dispatch proof.C04_Fin
+  model.C04_Client proof.C04_Client.
 From Coq Require Import ZArith.
 Local Open Scope N_scope.
 
@@ -193,6 +195,58 @@ Theorem C04_roundtrip_fin_coalesced :
      sdata (rs_script (snd (run_on read_tcp_response (pre ++ [Ev bs (Some EEof)])))) = trailing).
 Proof. exact roundtrip_fin. Qed.
 Print Assumptions C04_roundtrip_fin_coalesced.
+
+(* THE CLIENT SIDE (core/client: clientImpl.TCP and tcpConn.Read, model/C04_Client.v).  The response frame is
+   consumed by TCP() itself (no fast open) or by the application's first Read (fast open, the connection is
+   handed out with Established = false).  In both modes, for every legal width of the two length fields, every
+   message and padding within the limits, every payload and every way the stream is cut into reads - response
+   and payload coalesced in one read, cut inside the frame, cut inside the payload - TCP() hands out a
+   connection, and the application's first Read(b), len b = n, returns exactly what a plain Read(b) returns on
+   a stream st1 that delivers exactly the payload (then post) and leaves that stream in the same state: not
+   one byte beyond the frame is consumed on the way, whatever n is. *)
+Theorem C04_client_first_read_exact : forall fo status wm wp msg pad payload post st n,
+  b2n status = 0 ->
+  fits wm (N.of_nat (length msg)) -> fits wp (N.of_nat (length pad)) ->
+  N.of_nat (length msg) <= MaxMessageLength ->
+  N.of_nat (length pad) <= MaxPaddingLength ->
+  delivers (rs_script st) (response_frame status wm wp msg pad ++ payload) post ->
+  exists st0 st1,
+    client_tcp fo st = (Ok (TConn (negb fo)), st0) /\
+    delivers (rs_script st1) payload post /\
+    tcpconn_read (negb fo) n st0 =
+      (Ok (RData (fst (fst (stream_read n st1))) (snd (fst (stream_read n st1))), true), snd (stream_read n st1)).
+Proof. exact client_first_read_exact. Qed.
+Print Assumptions C04_client_first_read_exact.
+
+(* A failure response (any status byte but 0): the application gets a DialError carrying exactly the message -
+   from TCP() without fast open, from its first Read with it - and the stream is left exactly behind the frame. *)
+Theorem C04_client_dial_error_exact : forall fo status wm wp msg pad payload post st n,
+  b2n status <> 0 ->
+  fits wm (N.of_nat (length msg)) -> fits wp (N.of_nat (length pad)) ->
+  N.of_nat (length msg) <= MaxMessageLength ->
+  N.of_nat (length pad) <= MaxPaddingLength ->
+  delivers (rs_script st) (response_frame status wm wp msg pad ++ payload) post ->
+  exists st1, delivers (rs_script st1) payload post /\
+    (fo = true -> client_tcp fo st = (Ok (TConn false), st) /\ tcpconn_read false n st = (Ok (RDial msg, false), st1)) /\
+    (fo = false -> client_tcp fo st = (Ok (TDial msg), st1)).
+Proof. exact client_dial_error_exact. Qed.
+Print Assumptions C04_client_dial_error_exact.
+
+(* The whole session: the stream is the response frame and the payload, cut into reads in an arbitrary way, and
+   ends; the application reads with buffers of ARBITRARY positive sizes bufs[0], bufs[1], ... until io.EOF.  The
+   concatenation of what its Reads return is exactly the payload - nothing swallowed, nothing twice - and the
+   Reads end with io.EOF.  (fuel only makes the application's loop a total function.) *)
+Theorem C04_client_reads_exactly_payload : forall fo wm wp status msg pad payload s bufs plen,
+  b2n status = 0 ->
+  fits wm (N.of_nat (length msg)) -> fits wp (N.of_nat (length pad)) ->
+  N.of_nat (length msg) <= MaxMessageLength ->
+  N.of_nat (length pad) <= MaxPaddingLength ->
+  clean s -> sdata s = response_frame status wm wp msg pad ++ payload ->
+  Forall (fun b => (1 <= b)%nat) bufs ->
+  exists fuel0, forall fuel, (fuel0 <= fuel)%nat ->
+    fst (client_session fo true plen bufs fuel (mkRS s ctr0)) = Ok (TConn (negb fo), (payload, FErr EEof)).
+Proof. exact client_session_exact. Qed.
+Print Assumptions C04_client_reads_exactly_payload.
 
 (* Rejection before the declared amount is read or allocated.
    Address length 0 or above the limit, in any width: protocol error; the stream is left exactly after
